@@ -261,8 +261,12 @@ func replay(r *common.Run, sk *sink) int {
 		fmt.Println("replay file carries no simulator options")
 		return 2
 	}
-	res := raftsim.RunCase(w.Witness.Options, sk, true)
-	fmt.Printf("replayed: leaders=%d converged=%v panicked=%v violations=%d\n", res.Leaders, res.Converged, res.Panicked, r.NViolations())
+	// the same decision procedure as in a check run (for C17: three re-seeded fair phases, premise)
+	opt := w.Witness.Options
+	opt.HealSeed = 0
+	runOne(r, sk, opt, 0)
+	res := raftsim.RunCase(opt, &muted{}, true)
+	fmt.Printf("replayed: leaders=%d converged=%v premise_failed=%v panicked=%v violations=%d\n", res.Leaders, res.Converged, res.PremiseFailed, res.Panicked, r.NViolations())
 	if r.NViolations() > 0 {
 		return 1
 	}
